@@ -414,6 +414,9 @@ def check_known_classes(ctx):
 
 def run(ctx):
     check_known_classes(ctx)
+    # 'on_error=return always returns a summary' also when the process's stdout is not a well-behaved file (a console that rejects text ...)
+    from harness.props import c12
+    c12.ambient_streams(ctx)
     cases = build_cases(ctx)
     chunks = [cases[i:i + 12] for i in range(0, len(cases), 12)]
     results = [r for ch in common.pmap(_worker, chunks) for r in ch]
